@@ -39,7 +39,7 @@ ASSUMPTIONS = [
     "the scheduler does not model locks: cm_colors takes none; a stall is a HARNESS-ERROR, never a verdict",
     "text results embedding the sandbox path are normalised to <SBX>",
 ]
-PROBES = ["H_runs", "H_ops", "H_probes_after_change", "H_cli_ops", "H_bulk_ops", "H_show_save_ops", "H_slot_reuse", "H_repeat_same_op", "H_alias_family_ops", "H_bulk_position_probes", "H_cli_file_position_probes", "H_flood_ops", "H_heavy_distinct_fix_ops", "H_fed_back_result_ops", "H_host_warning_filter_windows", "H_ops_under_warnings_as_errors", "H_clock_jump_windows", "T_runs_under_jumping_clock",
+PROBES = ["H_runs", "H_ops", "H_probes_after_change", "H_cli_ops", "H_bulk_ops", "H_show_save_ops", "H_slot_reuse", "H_repeat_same_op", "H_alias_family_ops", "H_bulk_position_probes", "H_cli_file_position_probes", "H_cli_rule_position_probes", "H_flood_ops", "H_heavy_distinct_fix_ops", "H_fed_back_result_ops", "H_host_warning_filter_windows", "H_ops_under_warnings_as_errors", "H_clock_jump_windows", "H_host_locale_C_windows", "T_runs_under_jumping_clock",
           "T_runs", "T_threads", "T_ops", "T_steps", "T_switches", "T_hot_line_hits", "T_switch_in_optimisation", "T_mode_different",
           "T_mode_same", "T_mode_shared_object", "T_runs_with_switch_inside_call", "T_shared_object_first_touch_in_threads", "P_runs", "P_ops", "P_interpreters", "P_interpreters_sharing_home_and_tmp", "H_cli_ops_over_an_already_processed_directory"]
 
@@ -107,7 +107,7 @@ def _cli_op(rng):
     if rng.random() < 0.1:
         names = ["comp%02d.css" % k for k in range(rng.randint(8, 14))]  # a component library: many small stylesheets in one run
     for name in names:
-        feats = gen.draw_features(rng, ("vars", "var-shared", "var-fallback", "var-undefined", "nesting", "important", "keywords", "comments"), 0.35)
+        feats = gen.draw_features(rng, ("vars", "var-shared", "var-fallback", "var-undefined", "nesting", "important", "keywords", "comments", "non-ascii"), 0.35)
         txt = gen.render(gen.gen_sheet(rng, feats, settings, max_rules=3))
         # state that could leak from one in-process CLI run into a later one: custom properties defined
         # in one run's stylesheet and only referenced in another's
@@ -289,8 +289,10 @@ def generate(rseed, tier, idx):
             # the HOST changes process-wide interpreter settings between calls (a test runner or an application that turns
             # warnings into errors, python -W error): a window of pure operations runs under that setting
             pos = g.randrange(len(ops) + 1)
-            window = [{"op": "env", "what": g.choice(("warnings-error", "warnings-error", "warnings-always", "clock-jumps", "clock-jumps")),
+            window = [{"op": "env", "what": g.choice(("warnings-error", "warnings-error", "warnings-always", "clock-jumps", "clock-jumps", "locale-c", "locale-c")),
                        "seed": g.randrange(1 << 30)}]
+            if window[0]["what"] == "locale-c":
+                window.append(_cli_op(g))  # (a stylesheet written while the host has switched the process locale to "C")
             for _ in range(g.randint(2, 5)):
                 op = _pure_op(g)
                 if op["op"] == "make" and g.random() < 0.6:
@@ -424,6 +426,55 @@ def _colour_changed(op, r):
     return False
 
 
+
+def _literal_rule_probes(op):
+    """For an in-process CLI operation: up to two top-level rules per stylesheet whose text colour (and background, if any)
+    are literals, each with the stylesheet reduced to the :root/html blocks plus that rule alone.  What the tool writes for
+    such a rule must not depend on the rules processed before it (they are history)."""
+    import tinycss2
+
+    out = []
+    for name in sorted(op["tree"]):
+        text = op["tree"][name]
+        if text.startswith("HEX:") or not name.endswith(".css") or name.endswith("_cm.css"):
+            continue
+        text = text.lstrip("\ufeff")
+        try:
+            rules = tinycss2.parse_stylesheet(text, skip_whitespace=True, skip_comments=True)
+        except Exception:
+            continue
+        roots, cands, sels = [], [], {}
+        for rl in rules:
+            if rl.type != "qualified-rule":
+                continue
+            sel = tinycss2.serialize(rl.prelude).strip()
+            sels[sel] = sels.get(sel, 0) + 1
+            if sel in (":root", "html"):
+                roots.append(rl)
+                continue
+            decls = [d for d in tinycss2.parse_declaration_list(rl.content, skip_whitespace=True, skip_comments=True) if d.type == "declaration"]
+            cols = [d for d in decls if d.lower_name == "color"]
+            bgs = [d for d in decls if d.lower_name == "background-color"]
+            if len(cols) == 1 and len(bgs) <= 1 and not any("var(" in tinycss2.serialize(d.value).lower() for d in cols + bgs):
+                cands.append((sel, rl))
+        cands = [(sel, rl) for sel, rl in cands if sels[sel] == 1]
+        for sel, rl in cands[:1] + (cands[-1:] if len(cands) > 1 else []):
+            alone_text = tinycss2.serialize(roots + [rl]) if all(x.source_line <= rl.source_line for x in roots) else tinycss2.serialize([rl] + roots)
+            out.append((name, sel, {"op": "cli", "tree": {name: alone_text}, "settings": op["settings"], "order_key": op.get("order_key")}))
+    return out
+
+
+def _written_colour(files, name, sel):
+    ent = files.get("tree/" + name[:-4] + "_cm.css")
+    if not isinstance(ent, str):
+        return ("no-output",)
+    infos, _p = refs.analyse(ent.lstrip("\ufeff"), "white")
+    hits = [ri for ri in infos if ri.selector == sel and ri.depth == 0]
+    if len(hits) != 1:
+        return ("rule-count", len(hits))
+    return ("colour", hits[0].color_value)
+
+
 def _exec_H(trace):
     events, vio, stats = [], [], {}
 
@@ -470,6 +521,13 @@ def _exec_H(trace):
                 if name.endswith(".css") and not name.endswith("_cm.css"):
                     one = {"op": "cli", "tree": {name: op["tree"][name]}, "settings": op["settings"], "order_key": op.get("order_key")}
                     cli_alone[base.canon(one)] = base.in_fork(run_cli_op, one, timeout=200)
+    rule_alone = {}
+    for op in trace["ops"]:
+        if op["op"] == "cli" and not op.get("prior_settings") and len(op["tree"]) <= 2:
+            for name, sel, one in _literal_rule_probes(op):
+                ref = base.in_fork(run_cli_op, one, timeout=200)
+                if "ret" in ref:
+                    rule_alone[base.canon([one, sel])] = _written_colour(dict((k, v) for k, v in dec(ref["ret"])[3]), name, sel)
     root = base.new_sandbox("c15h")
     changed_seen = False
     nontrivial = False
@@ -479,6 +537,7 @@ def _exec_H(trace):
         warn_cm = None
         strict_warnings = False
         sim_clock = False
+        saved_locale = None
         for i, op in enumerate(trace["ops"]):
             if op["op"] == "env":
                 import warnings
@@ -489,6 +548,19 @@ def _exec_H(trace):
                 if sim_clock:
                     bump("H_clock_reads_by_cm_colors", seams.uninstall_sim_clock())
                     sim_clock = False
+                if saved_locale is not None:
+                    import locale as _locale
+
+                    _locale.setlocale(_locale.LC_ALL, saved_locale)
+                    saved_locale = None
+                if op["what"] == "locale-c":
+                    # the host switches the process locale (locale.setlocale(LC_ALL, "C")): whatever the library writes must
+                    # not depend on it
+                    import locale as _locale
+
+                    saved_locale = _locale.setlocale(_locale.LC_ALL)
+                    _locale.setlocale(_locale.LC_ALL, "C")
+                    bump("H_host_locale_C_windows")
                 if op["what"] in ("warnings-error", "warnings-always"):
                     warn_cm = warnings.catch_warnings()
                     warn_cm.__enter__()
@@ -576,6 +648,18 @@ def _exec_H(trace):
                         vio.append({"kind": "position-dependence", "detail": {"index": i, "file": name, "in_run_of": sorted(op["tree"]),
                                                                                "in_run": _brief_res(files_here.get(key)), "alone": _brief_res(files_alone.get(key))},
                                     "features": {"kind": "position-dependence", "op": "cli"}})
+            if op["op"] == "cli" and "ret" in r and not op.get("prior_settings") and len(op["tree"]) <= 2:
+                files_here = dict((k, v) for k, v in dec(r["ret"])[3])
+                for name, sel, one in _literal_rule_probes(op):
+                    want = rule_alone.get(base.canon([one, sel]))
+                    if want is None or want[0] != "colour":
+                        continue
+                    got_c = _written_colour(files_here, name, sel)
+                    bump("H_cli_rule_position_probes")
+                    if got_c != want:
+                        vio.append({"kind": "position-dependence", "detail": {"index": i, "file": name, "selector": sel, "stylesheet": op["tree"][name][:600],
+                                                                               "in_stylesheet": list(got_c), "alone": list(want)},
+                                    "features": {"kind": "position-dependence", "op": "cli-rule"}})
             if _colour_changed(op, r):
                 changed_seen = True
     finally:
@@ -583,6 +667,10 @@ def _exec_H(trace):
             warn_cm.__exit__(None, None, None)
         if sim_clock:
             bump("H_clock_reads_by_cm_colors", seams.uninstall_sim_clock())
+        if saved_locale is not None:
+            import locale as _locale
+
+            _locale.setlocale(_locale.LC_ALL, saved_locale)
         base.rm_tree(root)
     return {"violations": vio, "digest": base.digest(events), "nontrivial": nontrivial, "stats": stats, "steps": stats.get("H_ops", 0),
             "measures": {"distinct_histories(op lists)": base.digest([{k: v for k, v in o.items() if k not in ("again", "alias", "flood", "heavy", "t_from_op")} for o in trace["ops"]])}}
